@@ -45,6 +45,9 @@ def _has_json(spec: dict) -> bool:
 
 def _apply_exclusions(spec: dict, parts: list) -> tuple[list, list[str]]:
     capped: list[str] = []
+    if mutate.scans_as_pickle(spec) and mutate.pickle_put_index_max(mutate.materialize(parts)) > mutate.PICKLE_MEMO_INDEX_MAX:
+        # stdlib resource bomb (memo array of the C unpickler), out of the domain: see mutate.pickle_put_index_max
+        return [[b"N.", 1]], ["pickle-memo-index"]
     if not _has_json(spec) or not (EXCLUDE_D3 or EXCLUDE_D3B):
         return parts, capped
 
@@ -196,7 +199,7 @@ def _st_fills_for(n: int) -> st.SearchStrategy[list[int]]:
 
 @st.composite
 def st_stream_case(draw: st.DrawFn, tier: str) -> dict:
-    spec = draw(_st_biased_spec(zoo.st_stream_spec()))
+    spec = mutate.pickle_policy(draw(_st_biased_spec(zoo.st_stream_spec())))
     budget = SMALL_BUDGET
     if zoo.has_limit(spec):
         which = draw(st.integers(0, 5))
@@ -224,7 +227,7 @@ def st_stream_case(draw: st.DrawFn, tier: str) -> dict:
 
 @st.composite
 def st_oneshot_case(draw: st.DrawFn, tier: str) -> dict:
-    spec = draw(_st_biased_spec(dgram.st_datagram_spec()))
+    spec = mutate.pickle_policy(draw(_st_biased_spec(dgram.st_datagram_spec())))
     budget = draw(st.sampled_from([SMALL_BUDGET, SMALL_BUDGET, THOROUGH_BIG_BUDGET if tier == "thorough" else QUICK_BIG_BUDGET]))
     return {"spec": spec, **draw(_st_payload(spec, budget, stream=False))}
 
@@ -262,6 +265,9 @@ def run_oneshot(case: dict) -> Outcome:
     info = {"serializer": spec["kind"], "leafs": sorted(mutate.leaf_kinds(spec)), "input_len": len(data)}
     entry = zoo.build(spec)
     classes = _base_classes(case, data)
+    if mutate.scans_as_pickle(spec) and mutate.pickle_put_index_max(data) > mutate.PICKLE_MEMO_INDEX_MAX:
+        # never hand a memo-array bomb to the C unpickler, whatever produced this case (see mutate.pickle_put_index_max)
+        return Outcome(nontrivial=False, classes=tuple(classes + ["excluded-pickle-memo-index-not-run"]))
     rejected = False
     try:
         pkt = entry.serializer.deserialize(data)
@@ -356,7 +362,7 @@ ATHERIS_TARGETS: list[dict] = [
     {"kind": "lenprefixed", "limit": 100},
     {"kind": "stapled", "sent": dict(_JSON_RAW), "recv": dict(_JSON_RAW)},
     {"kind": "pickle", "restricted": True},
-    {"kind": "base64", "inner": {"kind": "pickle", "restricted": True}, "alphabet": "urlsafe", "checksum": "key", "separator": b"|", "limit": 4096},
+    {"kind": "base64", "inner": {"kind": "pickle", "restricted": "py"}, "alphabet": "urlsafe", "checksum": "key", "separator": b"|", "limit": 4096},
 ]
 ATHERIS_RUNS = 30000
 ATHERIS_MAX_LEN = 4096
@@ -498,6 +504,9 @@ CHECK = Check(
     ],
     assumptions=[
         "Pickle is fuzzed only through a restricted unpickler (find_class refused); generated bytes never reach an unrestricted one",
+        "pickle inputs whose PUT/BINPUT/LONG_BINPUT memo index exceeds 100000 are excluded (class excluded-pickle-memo-index-capped): CPython's "
+        "C unpickler resizes its memo array to 2*index entries (5 bytes of input -> up to 32 GiB), a resource bomb of the stdlib covered by the "
+        "documented pickle security caveat; Pickle nested inside base64/compressor wrappers therefore runs on the pure-Python restricted unpickler",
         "harness serializers (AutoSeparated/FixedSize/FileBased/AbstractIncremental subclasses) raise only DeserializeError themselves, "
         "so anything else escaping comes from the library's base classes",
         "configured limit >= 4, i.e. larger than every separator used (1-3 bytes); limit < len(separator) is a degenerate configuration "
